@@ -11,6 +11,7 @@ import (
 	"github.com/rqlite/rqlite/v10/db"
 	"github.com/rqlite/rqlite/v10/internal/fsutil"
 	"github.com/rqlite/rqlite/v10/internal/rsum"
+	"github.com/rqlite/rqlite/v10/internal/verifhook"
 	"github.com/rqlite/rqlite/v10/snapshot/sidecar"
 )
 
@@ -131,7 +132,13 @@ func (s *StagingDir) MoveWALFilesTo(dst string) error {
 		if err := os.Rename(srcPath, dstPath); err != nil {
 			return err
 		}
+		if err := verifhook.Hit("snapshot.staging.move.after-wal"); err != nil {
+			return err
+		}
 		if err := os.Rename(srcCRCPath, dstPath+crcSuffix); err != nil {
+			return err
+		}
+		if err := verifhook.Hit("snapshot.staging.move.after-crc"); err != nil {
 			return err
 		}
 	}
@@ -171,13 +178,22 @@ func (w *WALWriter) Close() error {
 	if err := sidecar.WriteFile(walPath+crcSuffix, w.crcW.Sum32()); err != nil {
 		return fmt.Errorf("failed to write CRC32 sum file: %w", err)
 	}
+	if err := verifhook.Hit("snapshot.walwriter.close.after-sidecar"); err != nil {
+		return err
+	}
 	if err := w.fd.Sync(); err != nil {
 		return fmt.Errorf("failed to sync WAL file: %w", err)
+	}
+	if err := verifhook.Hit("snapshot.walwriter.close.after-sync"); err != nil {
+		return err
 	}
 	if err := w.fd.Close(); err != nil {
 		return fmt.Errorf("failed to close WAL file: %w", err)
 	}
 	w.closed = true
+	if err := verifhook.Hit("snapshot.walwriter.close.after-close"); err != nil {
+		return err
+	}
 	return fsutil.SyncDirMaybe(w.dir)
 }
 
